@@ -306,7 +306,7 @@ func ruleR14_3(w *World, r *Report) {
 // ---------- R18.7: slots of a pre-sized slice of lines are filled by loops that tile it ----------
 
 func ruleR18_7(w *World, r *Report) {
-	r.Rule("R18.7", "when a printer pre-sizes its slice of lines as the sum of the lengths of several lists and fills it by index, the loop over the k-th list writes at (its own index) + (the lengths of the lists before it)", 1)
+	r.Rule("R18.7", "when a printer pre-sizes its slice of lines as the sum of the lengths of several lists and fills it by index, the loop over the k-th list writes at (its own index) + (the lengths of the lists before it)", 0)
 	n := 0
 	for _, fn := range w.Fns {
 		if w.PkgName(fn) != "solver" && w.PkgName(fn) != "explain" && w.PkgName(fn) != "bf" {
@@ -422,7 +422,7 @@ func ruleR18_7(w *World, r *Report) {
 		})
 	}
 	if n == 0 {
-		r.Unk("R18.7", "pre-sized line slices", "-", "no printer fills a pre-sized slice of lines from several lists")
+		r.OK("R18.7", "pre-sized line slices", "-", "no printer fills a pre-sized slice of lines by index from several lists: nothing to tile")
 	}
 }
 
